@@ -332,49 +332,84 @@ impl World {
         last
     }
 
-    /// Re-authentication of the session behind `ident` (password [+ totp]).
-    pub async fn reauth(
-        &mut self,
-        at: u64,
-        ident: Identity,
-        grant_rw: bool,
-        pw: &str,
-        totp: Option<&Totp>,
-    ) -> Result<JwsCompact, String> {
+    /// Re-authentication of the session behind `ident`.
+    pub async fn reauth(&mut self, at: u64, ident: Identity, grant_rw: bool, how: &ReauthCred) -> Result<JwsCompact, String> {
         use kanidmd_lib::idm::authentication::ReauthRequest;
         let ct = t(at);
         let mut a = self.idms.auth().await.expect("auth txn");
+        let origin = a.get_origin().clone();
         let req = if grant_rw { ReauthRequest::GrantReadWrite } else { ReauthRequest::VerifyCredentials };
         let r = a
             .reauth_init(ident, AuthIssueSession::Token, ct, ClientAuthInfo::new(Source::Internal, None, None, None), req)
             .await
             .map_err(|e| class_of(&e))?;
         let AuthResult { sessionid, state } = r;
-        let allowed = match state {
+        let mut allowed = match state {
             AuthState::Continue(al) => al,
             AuthState::Denied(_) => return Err("denied".into()),
             _ => return Err("unexpected-reauth".into()),
         };
-        let mut creds = Vec::new();
-        for al in allowed.iter() {
-            match al {
-                AuthAllowed::Totp => {
-                    if let Some(tp) = totp {
-                        let code = tp.do_totp_duration_from_epoch(&ct).map_err(|_| "totperr".to_string())?;
-                        creds.insert(0, AuthCredential::Totp(code));
-                    }
-                }
-                AuthAllowed::Password => creds.push(AuthCredential::Password(pw.to_string())),
-                _ => {}
+        let creds = match how {
+            ReauthCred::Pw(pw) => vec![AuthCredential::Password(pw.clone())],
+            ReauthCred::PwTotp(pw, totp) => {
+                let code = totp.do_totp_duration_from_epoch(&ct).map_err(|_| "totperr".to_string())?;
+                vec![AuthCredential::Totp(code), AuthCredential::Password(pw.clone())]
             }
-        }
-        if totp.is_some() && !creds.iter().any(|c| matches!(c, AuthCredential::Password(_))) {
-            creds.push(AuthCredential::Password(pw.to_string()));
-        }
+            ReauthCred::Passkey => match allowed.pop() {
+                Some(AuthAllowed::Passkey(rcr)) => {
+                    let resp = self.wa.do_authentication(origin, rcr).map_err(|_| "waerr".to_string())?;
+                    vec![AuthCredential::Passkey(Box::new(resp))]
+                }
+                _ => return Err("unexpected-reauth-allowed".into()),
+            },
+        };
         let r = Self::cred_steps(&mut a, sessionid, ct, creds).await;
         a.commit().expect("auth commit");
         self.drain();
         r
+    }
+
+    /// LDAP simple bind with the unix password; returns the bound session.
+    pub async fn ldap_bind(&mut self, at: u64, target: Uuid, pw: &str) -> Result<kanidmd_lib::idm::ldap::LdapSession, String> {
+        use kanidmd_lib::idm::event::LdapAuthEvent;
+        let mut a = self.idms.auth().await.expect("auth txn");
+        let ev = LdapAuthEvent::from_parts(target, pw.to_string()).map_err(|e| class_of(&e))?;
+        let r = a.auth_ldap(&ev, t(at)).await;
+        a.commit().expect("auth commit");
+        self.drain();
+        match r {
+            Ok(Some(tok)) => Ok(tok.effective_session),
+            Ok(None) => Err("denied".into()),
+            Err(e) => Err(class_of(&e)),
+        }
+    }
+    pub async fn ldap_use(&self, at: u64, sess: &kanidmd_lib::idm::ldap::LdapSession) -> Result<Identity, String> {
+        let mut r = self.idms.proxy_read().await.expect("pr");
+        r.validate_ldap_session(sess, Source::Internal, t(at)).map_err(|e| class_of(&e))
+    }
+
+    /// Present a client certificate (mTLS identity) instead of a bearer token.
+    pub async fn present_cert(&self, at: u64, cert: &crypto_glue::x509::Certificate) -> Result<Identity, String> {
+        use kanidmd_lib::idm::authentication::ClientCertInfo;
+        let Some(d) = crypto_glue::x509::x509_digest_public_key_sha256(cert) else { return Err("nodigest".into()) };
+        let cci = ClientCertInfo { public_key_s256: d, certificate: cert.clone() };
+        let mut r = self.idms.proxy_read().await.expect("pr");
+        let cai = ClientAuthInfo::new(Source::Internal, Some(cci), None, None);
+        r.validate_client_auth_info_to_ident(cai, t(at)).map_err(|e| class_of(&e))
+    }
+
+    /// Generated password of a service account (generate_service_account_password).
+    pub async fn gen_sa_password(&mut self, at: u64, target: Uuid) -> Result<String, String> {
+        use kanidmd_lib::idm::event::GeneratePasswordEvent;
+        let mut w = self.idms.proxy_write(t(at)).await.expect("pw");
+        let ev = GeneratePasswordEvent::from_parts(kt::ident_internal(), target).map_err(|e| class_of(&e))?;
+        match w.generate_service_account_password(&ev) {
+            Ok(pw) => {
+                w.commit().map_err(|e| class_of(&e))?;
+                Ok(pw)
+            }
+            Err(e) => Err(class_of(&e)),
+        }
     }
 
     // ---------------------------------------------------------------- tokens
@@ -491,7 +526,7 @@ impl World {
         for s in kt::uat_sessions(&e) {
             let n = self.names.get('s', &s.id.to_string());
             let c = self.names.get('c', &s.cred_id.to_string());
-            sess.insert(n, json!({"st": s.state, "exp": relsecs(s.exp), "cred": c, "iat": relsecs(s.issued_at), "sc": s.scope}));
+            sess.insert(n, json!({"st": s.state, "exp": relsecs(s.exp), "cred": c, "iat": relsecs(s.issued_at), "sc": s.scope, "rt": relsecs(s.rev_at)}));
         }
         let mut api = serde_json::Map::new();
         for (id, exp, iat, sc) in kt::api_sessions(&e) {
@@ -507,6 +542,12 @@ impl World {
         let creds: Vec<String> = kt::cred_ids(&e).into_iter().map(|(_, u)| self.names.get('c', &u.to_string())).collect();
         Some(json!({"vf": relsecs(vf), "ex": relsecs(ex), "sess": sess, "api": api, "o2": o2, "creds": creds}))
     }
+}
+
+pub enum ReauthCred {
+    Pw(String),
+    PwTotp(String, Totp),
+    Passkey,
 }
 
 pub enum CredOp {
